@@ -8,6 +8,7 @@ CLAIMED = {
     "C11": ("graph", "§6 C11", "Same exploration over 2-3 WBSs; TLC evaluates owner = reachability from the WBS roots after every call and that detached trees are accepted again."),
     "C15": ("graph", "§6 C15", "Same exploration; for every raising call TLC compares the complete projection before and after (ordered children, ordered link lists, owners, roots, attributes)."),
     "C16": ("graph", "§6 C16", "Same exploration; for every returning call TLC checks post-state in Effects(pre, action) (documented effect plus frame) and documented return values."),
+    "C17": ("calendar", "§6 C17", "Calendar expressions (every leaf definition, valid and invalid, alone and under every operator with every other leaf or number; seeded deeper trees) are built with the real classes, probed on every day of a window at two times of day and at validity boundaries, and searched in both directions with small horizons; TLC evaluates the same expression with Calendar.tla (exact rationals) and judges every observation."),
 }
 NOT_YET = {}
 ALL = ["C%02d" % i for i in range(1, 21)]
@@ -35,7 +36,9 @@ def main():
                   "baseline_off_cmd": "cd /repo && env -u PJPLAN_VERIF /venv/bin/python -m pytest -ra -q -p no:cacheprovider --timeout=900 --continue-on-collection-errors",
                   "source_commits": [], "add_only": True},
         "engines": [{"name": "graph", "path": "/verif/harness/eng_graph.py", "serves_properties": ["C01", "C05", "C11", "C15", "C16"],
-                     "kind_free_text": "TLA+ TaskGraph/MC_TaskGraph/TaskGraphTrace; BFS over real objects + TLC judge"}],
+                     "kind_free_text": "TLA+ TaskGraph/MC_TaskGraph/TaskGraphTrace; BFS over real objects + TLC judge"},
+                    {"name": "calendar", "path": "/verif/harness/eng_calendar.py", "serves_properties": ["C17"],
+                     "kind_free_text": "TLA+ Calendar/CalendarTrace; enumerated expression trees judged by TLC"}],
         "checks": checks,
         "not_applicable": na,
         "notes": "See DESIGN.md. All checks: ./check <ID> [--tier quick|thorough] [--replay path].",
